@@ -188,7 +188,7 @@ class Body:
     def _mut_places(self, op, depth):
         """places (local, proj list) that `op` (an argument) may mutably alias: &mut X.f, a copy of such a ref, a view obtained through
         deref_mut()/as_mut(), or a closure capturing &mut X"""
-        if "p" not in op or depth > 5:
+        if "p" not in op or depth > 12:
             return []
         l = op["p"]["l"]
         out = []
